@@ -115,11 +115,15 @@ PortStr(a) == IF a.form \in {"hp", "v6p"} THEN a.p ELSE ""
 UrlURI(u) == (IF u.path = "" THEN "/" ELSE u.path) \o (IF u.query = "" THEN "" ELSE "?" \o u.query)
 UrlStr(u) == u.scheme \o "://" \o u.host \o u.path \o (IF u.query = "" THEN "" ELSE "?" \o u.query)
 
-\* header lookup is case-insensitive: the event carries canonical names, a token carries the
-\* canonical form of its spelling in .canon
-HeaderVal(e, canon) == IF ~e.req THEN ""
+\* header lookup is what net/http's Header.Get does: the event carries the keys of the header map
+\* verbatim, each with its list of values (possibly empty or nil, possibly several); a token carries
+\* the canonical form of its spelling in .canon.  The value is the FIRST value filed under exactly
+\* the canonical key, "" if there is no such key, no value, or no header map at all.
+HeaderVal(e, canon) == IF ~e.req \/ ~e.hmap THEN ""
                        ELSE IF \E i \in DOMAIN e.hdr : e.hdr[i].name = canon
-                            THEN (e.hdr[CHOOSE i \in DOMAIN e.hdr : e.hdr[i].name = canon]).val ELSE ""
+                            THEN LET h == e.hdr[CHOOSE i \in DOMAIN e.hdr : e.hdr[i].name = canon]
+                                 IN IF h.vals = <<>> THEN "" ELSE h.vals[1]
+                            ELSE ""
 
 -----------------------------------------------------------------------------
 \* the documented fields and what each renders (a SET of admissible strings; singleton except hosts)
@@ -235,7 +239,7 @@ EventOf(x) ==
      rurl |-> [present |-> TRUE, scheme |-> "http", host |-> x.host, path |-> x.path, query |-> x.query],
      uurl |-> IF Contacted(x) THEN [present |-> TRUE, scheme |-> "http", host |-> AddrStr(x.target), path |-> x.path, query |-> x.query]
               ELSE [present |-> FALSE, scheme |-> "", host |-> "", path |-> "", query |-> ""],
-     hdr |-> x.hdr, svc |-> IF Contacted(x) THEN x.svc ELSE ""]
+     hmap |-> TRUE, hdr |-> x.hdr, svc |-> IF Contacted(x) THEN x.svc ELSE ""]
 \* the statement says nothing about the upstream fields of an exchange that contacts no upstream
 UpstreamField(t) == t.k = "field" /\ t.v \in {"$upstream_addr", "$upstream_host", "$upstream_port", "$upstream_request_scheme",
                                                "$upstream_request_uri", "$upstream_request_url", "$upstream_service"}
